@@ -127,7 +127,7 @@ Proof.
   intros k H. unfold key_name. rewrite app_length, rep_length.
   assert (length (hex_of k) <= 5)%nat; [|lia].
   unfold hex_of. pose proof (hex_go_length 5 (5 + N.to_nat (N.size k)) k []) as A.
-  cbn [length] in A. rewrite Nat.add_0_r in A. apply A; try lia. exact H.
+  cbn [length] in A. rewrite Nat.add_0_r in A. apply A; first [lia | exact H].
 Qed.
 
 (* List's filter keeps the name of every key the client can use *)
@@ -177,8 +177,8 @@ Qed.
 Lemma in_lookup : forall n f d, In (n, f) d -> exists f', lookup n d = Some f'.
 Proof.
   intros n f. induction d as [|[x g] r IH]; intros H; [contradiction|].
-  cbn [lookup]. destruct (name_eqb n x); [eauto|].
-  destruct H as [H|H]; [|apply IH, H]. inversion H; subst. rewrite name_eqb_refl. eauto.
+  cbn [lookup]. destruct (name_eqb n x) eqn:E; [eauto|].
+  destruct H as [H|H]; [|apply IH, H]. inversion H; subst. rewrite name_eqb_refl in E. discriminate.
 Qed.
 
 Lemma in_remove : forall n f m d, In (n, f) (remove_name m d) -> In (n, f) d.
@@ -234,17 +234,18 @@ Proof.
   destruct c as [m|m b|m|m|a b|m|m]; cbn [apply touches In] in *.
   - rewrite !lookup_bind. destruct (name_eqb n m) eqn:E; [reflexivity|].
     apply name_eqb_false in E. destruct Hn as [->|[]]. congruence.
-  - destruct Hn as [<-|[]]. rewrite <- (H m) by tauto.
+  - destruct Hn as [<-|[]]. pose proof (H m (or_introl eq_refl)) as Hm. rewrite <- Hm.
     destruct (lookup m d) eqn:E; [rewrite !lookup_bind, name_eqb_refl; reflexivity|].
-    rewrite E. apply H. tauto.
-  - destruct Hn as [<-|[]]. rewrite <- (H m) by tauto.
+    congruence.
+  - destruct Hn as [<-|[]]. pose proof (H m (or_introl eq_refl)) as Hm. rewrite <- Hm.
     destruct (lookup m d) eqn:E; [rewrite !lookup_bind, name_eqb_refl; reflexivity|].
-    rewrite E. apply H. tauto.
+    congruence.
   - apply H, Hn.
-  - rewrite <- (H a) by tauto. destruct (lookup a d) eqn:E.
-    + rewrite !lookup_bind, !lookup_remove. destruct (name_eqb n b); [reflexivity|].
+  - pose proof (H a (or_introl eq_refl)) as Ha. rewrite <- Ha. destruct (lookup a d) eqn:E.
+    + rewrite !lookup_bind, !lookup_remove. destruct (name_eqb n b) eqn:G; [reflexivity|].
       destruct (name_eqb n a) eqn:F; [reflexivity|].
-      apply name_eqb_false in F. destruct Hn as [->|[->|[]]]; [congruence | apply H; tauto].
+      apply name_eqb_false in F. apply name_eqb_false in G.
+      destruct Hn as [->|[->|[]]]; congruence.
     + apply H, Hn.
   - rewrite !lookup_remove. destruct Hn as [<-|[]]. rewrite name_eqb_refl. reflexivity.
   - apply H, Hn.
@@ -261,6 +262,9 @@ Lemma run_app : forall d l1 l2, run d (l1 ++ l2) = run (run d l1) l2.
 Proof. intros. unfold run. apply fold_left_app. Qed.
 
 Lemma run_cons : forall d c l, run d (c :: l) = run (apply d c) l.
+Proof. reflexivity. Qed.
+
+Lemma run_single : forall d c, run d [c] = apply d c.
 Proof. reflexivity. Qed.
 
 Lemma calls_on_app : forall S l1 l2, calls_on S l1 -> calls_on S l2 -> calls_on S (l1 ++ l2).
@@ -322,9 +326,9 @@ Lemma stop_prefix_app_inv : forall l1 l2 p,
 Proof.
   induction l1 as [|c l1 IH]; intros l2 p H.
   - right. exists p. split; [reflexivity | exact H].
-  - cbn [app] in H. inversion H; subst.
+  - cbn [app] in H. inversion H as [ | c' p' l' Hp | n' b' j' l']; subst.
     + left. constructor.
-    + destruct (IH _ _ H3) as [A|[p2 [-> A]]].
+    + destruct (IH _ _ Hp) as [A|[p2 [-> A]]].
       * left. constructor. exact A.
       * right. exists p2. split; [reflexivity | exact A].
     + left. constructor.
@@ -334,8 +338,8 @@ Lemma stop_prefix_calls_on : forall S p l, stop_prefix p l -> calls_on S l -> ca
 Proof.
   intros S p l H. induction H; intros A.
   - constructor.
-  - inversion A; subst. constructor; auto.
-  - inversion A; subst. constructor; [exact H1 | constructor].
+  - inversion A as [|? ? Hc Hl]; subst. constructor; [exact Hc | apply IHstop_prefix, Hl].
+  - inversion A as [|? ? Hc Hl]; subst. constructor; [exact Hc | constructor].
 Qed.
 
 (* ------------------------------------------------------------------ *)
@@ -371,6 +375,14 @@ Qed.
 Lemma calls_on_only1 : forall sp c, touches c = [sp] -> calls_on (only sp) [c].
 Proof. intros sp c H. constructor; [|constructor]. rewrite H. intros n [<-|[]]. reflexivity. Qed.
 
+Ltac on_sp :=
+  unfold calls_on in *;
+  repeat first
+    [ assumption
+    | apply Forall_nil
+    | apply Forall_cons; [intros ? [<-|[]]; reflexivity|]
+    | apply Forall_app; split ].
+
 (* Save is a run of calls on the spool file alone, followed -- exactly when it returns nil
    -- by the one rename; in that case the calls before the rename are
    creat, the writes, fsync, close. *)
@@ -397,29 +409,22 @@ Proof.
     try (exists []; split; [constructor | split; [reflexivity | discriminate]]);
     rewrite ?Bool.andb_true_r, ?Bool.andb_false_r;
     destruct wok; cbn [andb negb]; rewrite ?effects_app; cbn [effects app];
-    try (specialize (W2 eq_refl); rewrite W2);
+    try (specialize (W2 eq_refl); rewrite W2 in *);
     try (destruct leak; cbn [effects]).
   (* the failing shapes: everything stays on the spool name *)
-  all: try (eexists; split; [|split; [reflexivity | discriminate]];
-            repeat first [apply calls_on_app | assumption
-                         | apply (calls_on_app _ [_]) | constructor;
-                           [intros ? [<-|[]]; reflexivity|] ]; fail).
+  all: try (eexists; split; [|split; [reflexivity | discriminate]]; on_sp; fail).
   (* the successful shapes *)
   all: try (exists (Creat sp :: map (Write sp) bufs ++ [Fsync sp; Close sp]);
-            split; [| split; [discriminate|]];
-            [ rewrite <- W2; apply (calls_on_app _ [_]); [assumption|];
-              apply calls_on_app; [assumption|]; apply (calls_on_app _ [_] [_]); assumption
-            | intros _; split;
+            split; [on_sp | split; [discriminate|]];
+            intros _; split;
               [ cbn [app]; rewrite <- app_assoc; reflexivity
-              | exists [Close sp]; split; [reflexivity | right; reflexivity] ] ]; fail).
+              | exists [Close sp]; split; [reflexivity | right; reflexivity] ]; fail).
   (* close reported an error: Save ignores it, the call had no effect *)
-  all: try (exists (Creat sp :: map (Write sp) bufs ++ [Fsync sp]);
-            split; [| split; [discriminate|]];
-            [ rewrite <- W2; apply (calls_on_app _ [_]); [assumption|];
-              apply calls_on_app; assumption
-            | intros _; split;
-              [ cbn [app]; rewrite <- app_assoc; reflexivity
-              | exists []; split; [rewrite app_nil_r; reflexivity | left; reflexivity] ] ]; fail).
+  all: exists (Creat sp :: map (Write sp) bufs ++ [Fsync sp]);
+       (split; [on_sp | split; [discriminate|]]);
+       intros _; split;
+         [ cbn [app]; rewrite <- app_assoc; reflexivity
+         | exists []; split; [reflexivity | left; reflexivity] ].
 Qed.
 
 Lemma run_writes : forall sp bufs d f,
@@ -440,13 +445,13 @@ Lemma run_spool_complete : forall sp bufs cl d,
   lookup sp (run d (Creat sp :: map (Write sp) bufs ++ [Fsync sp] ++ cl))
   = Some (mkfile (concat bufs) true).
 Proof.
-  intros sp bufs cl d Hcl. rewrite run_cons, run_app, run_app.
+  intros sp bufs cl d Hcl. rewrite run_cons, run_app.
   destruct (run_writes sp bufs (apply d (Creat sp)) (mkfile [] false)) as [fl A].
   { cbn [apply]. rewrite lookup_bind, name_eqb_refl. reflexivity. }
-  assert (lookup sp (run (run (apply d (Creat sp)) (map (Write sp) bufs)) [Fsync sp])
-          = Some (mkfile (concat bufs) true)) as B.
-  { cbn [run fold_left apply]. rewrite A. rewrite lookup_bind, name_eqb_refl. reflexivity. }
-  destruct Hcl as [->| ->]; [exact B|]. cbn [run fold_left apply] in *. exact B.
+  cbn [fdata app] in A.
+  set (d2 := run (apply d (Creat sp)) (map (Write sp) bufs)) in *.
+  destruct Hcl as [->| ->]; cbn [app run fold_left apply]; rewrite A;
+    rewrite lookup_bind, name_eqb_refl; reflexivity.
 Qed.
 
 (* ------------------------------------------------------------------ *)
@@ -468,10 +473,10 @@ Proof.
   - destruct (Ht eq_refl) as [S [cl [Hpre Hcl]]]. rewrite S in H.
     apply stop_prefix_app_inv in H. destruct H as [H|[p2 [-> H]]].
     + left. eapply run_frame; [eapply stop_prefix_calls_on; eassumption | apply only_spool_not_key].
-    + inversion H; subst.
+    + inversion H as [ | c' p' l' Hp | n' b' j' l']; subst.
       * left. rewrite app_nil_r. eapply run_frame; [exact P | apply only_spool_not_key].
-      * inversion H3; subst. right. split; [reflexivity|].
-        rewrite run_app. cbn [run fold_left apply].
+      * inversion Hp; subst. right. split; [reflexivity|].
+        rewrite run_app, run_single. cbn [apply].
         rewrite run_spool_complete by exact Hcl.
         rewrite lookup_bind, name_eqb_refl. reflexivity.
   - rewrite (Hf eq_refl) in H. left.
@@ -505,7 +510,6 @@ Theorem flush_before_visible_lemma : forall k bufs f leak,
   exists a b,
     save_calls k bufs f leak
       = a ++ Fsync (spool_name k) :: b ++ [Rename (spool_name k) (key_name k)] /\
-    forallb is_write b = false \/ b = [] -> True /\
     forallb (fun c => negb (is_write c)) b = true /\
     (forall d, lookup (spool_name k) (run d (a ++ Fsync (spool_name k) :: b))
                = Some (mkfile (concat bufs) true)) /\
@@ -516,9 +520,364 @@ Proof.
   destruct (save_calls_shape k bufs f leak) as [pre [P [_ Ht]]].
   destruct (Ht E) as [S [cl [Hpre Hcl]]].
   exists (Creat (spool_name k) :: map (Write (spool_name k)) bufs), cl.
-  intros _. split; [exact I|]. split; [destruct Hcl as [->| ->]; reflexivity|]. split.
-  - intros d. rewrite <- (run_spool_complete (spool_name k) bufs cl d Hcl).
-    cbn [app]. rewrite <- app_assoc. reflexivity.
-  - intros d. rewrite S, run_app, Hpre. cbn [run fold_left apply].
+  assert (pre = (Creat (spool_name k) :: map (Write (spool_name k)) bufs)
+                  ++ Fsync (spool_name k) :: cl) as Hpre'.
+  { rewrite Hpre. cbn [app]. reflexivity. }
+  split; [|split; [|split]].
+  - rewrite S, Hpre', <- app_assoc. reflexivity.
+  - destruct Hcl as [->| ->]; reflexivity.
+  - intros d. rewrite <- Hpre', Hpre. apply run_spool_complete, Hcl.
+  - intros d. rewrite S, run_app, run_single, Hpre. cbn [apply].
     rewrite run_spool_complete by exact Hcl. rewrite lookup_bind, name_eqb_refl. reflexivity.
+Qed.
+
+(* ------------------------------------------------------------------ *)
+(* Delete                                                              *)
+
+Theorem delete_stop_lemma : forall d k p,
+  stop_prefix p (delete_calls k) ->
+  load k (run d p) = load k d \/ load k (run d p) = None.
+Proof.
+  intros d k p H. unfold delete_calls in H.
+  inversion H as [ | c' p' l' Hp | n' b' j' l']; subst.
+  - left. reflexivity.
+  - inversion Hp; subst. right. unfold load. cbn [run fold_left apply].
+    rewrite lookup_remove, name_eqb_refl. reflexivity.
+Qed.
+
+(* ------------------------------------------------------------------ *)
+(* which names the operations touch                                    *)
+
+Lemma save_calls_on : forall k bufs f leak, calls_on (key_names k) (save_calls k bufs f leak).
+Proof.
+  intros k bufs f leak. destruct (save_calls_shape k bufs f leak) as [pre [P [Hf Ht]]].
+  assert (calls_on (key_names k) pre) as P'.
+  { eapply calls_on_weaken; [|exact P]. intros n ->. right. reflexivity. }
+  destruct (save_ok k bufs f leak).
+  - destruct (Ht eq_refl) as [-> _]. apply calls_on_app; [exact P'|].
+    constructor; [|constructor]. cbn [touches]. intros n [<-|[<-|[]]]; [right | left]; reflexivity.
+  - rewrite (Hf eq_refl). exact P'.
+Qed.
+
+Lemma delete_calls_on : forall k, calls_on (key_names k) (delete_calls k).
+Proof.
+  intros k. constructor; [|constructor]. cbn [touches]. intros n [<-|[]]. left. reflexivity.
+Qed.
+
+(* frame: an operation on key k leaves the files of every other key alone *)
+Theorem frame_lookup : forall k l, calls_on (key_names k) l ->
+  forall k' n d, k' <> k -> key_names k' n -> lookup n (run d l) = lookup n d.
+Proof.
+  intros k l H k' n d D Hn. eapply run_frame; [exact H|].
+  intros A. exact (key_names_disjoint k' k n D Hn A).
+Qed.
+
+Theorem frame_load : forall k l, calls_on (key_names k) l ->
+  forall k' d, k' <> k -> load k' (run d l) = load k' d.
+Proof.
+  intros k l H k' d D. unfold load.
+  rewrite (frame_lookup k l H k' (key_name k') d D); [reflexivity | left; reflexivity].
+Qed.
+
+(* ------------------------------------------------------------------ *)
+(* List                                                                *)
+
+(* directories that hold only names the store creates *)
+Definition store_dir (d : dir) : Prop := forall n f, In (n, f) d -> store_name n.
+
+Lemma store_dir_apply : forall d c,
+  store_dir d -> (forall n, In n (touches c) -> store_name n) -> store_dir (apply d c).
+Proof.
+  intros d c H T n f I. destruct (in_apply _ _ _ _ I) as [A|[f' A]]; [apply T, A | eapply H, A].
+Qed.
+
+Lemma store_dir_run : forall l d, store_dir d -> calls_on store_name l -> store_dir (run d l).
+Proof.
+  induction l as [|c l IH]; intros d H A; [exact H|].
+  inversion A as [|? ? Hc Hl]; subst. rewrite run_cons. apply IH; [|exact Hl].
+  apply store_dir_apply; assumption.
+Qed.
+
+Lemma list_keys_in : forall k d, In k (list_keys d) -> exists n f, In (n, f) d /\ parse_key n = Some k.
+Proof.
+  intros k. induction d as [|[n f] r IH]; cbn [list_keys]; intros H; [contradiction|].
+  destruct (parse_key n) eqn:E.
+  - destruct H as [<-|H].
+    + exists n, f. split; [left; reflexivity | exact E].
+    + destruct (IH H) as [n' [f' [A B]]]. exists n', f'. split; [right; exact A | exact B].
+  - destruct (IH H) as [n' [f' [A B]]]. exists n', f'. split; [right; exact A | exact B].
+Qed.
+
+Lemma in_list_keys : forall n f k d, In (n, f) d -> parse_key n = Some k -> In k (list_keys d).
+Proof.
+  intros n f k. induction d as [|[m g] r IH]; intros H E; [contradiction|].
+  cbn [list_keys]. destruct H as [H|H].
+  - inversion H; subst. rewrite E. left. reflexivity.
+  - destruct (parse_key m); [right|]; apply IH; assumption.
+Qed.
+
+Lemma lookup_in : forall n f d, lookup n d = Some f -> In (n, f) d.
+Proof.
+  intros n f. induction d as [|[m g] r IH]; cbn [lookup]; intros H; [discriminate|].
+  destruct (name_eqb n m) eqn:E.
+  - apply name_eqb_true in E. inversion H; subst. left. reflexivity.
+  - right. apply IH, H.
+Qed.
+
+Lemma parse_key_limit : forall n k, parse_key n = Some k -> k < key_limit.
+Proof.
+  intros n k. unfold parse_key. destruct (Nat.eqb _ 5); [|discriminate].
+  destruct (parse_hex_from 0 n) as [v|]; [|discriminate].
+  destruct (N.ltb_spec v key_limit) as [L|L]; [|discriminate]. intros E. inversion E; subst. exact L.
+Qed.
+
+(* every key List reports can be loaded; and List reports exactly the loadable keys below 2^17 *)
+Theorem listed_iff_loadable : forall d k, store_dir d ->
+  (In k (list_keys d) <-> k < key_limit /\ exists v, load k d = Some v).
+Proof.
+  intros d k S. split.
+  - intros H. destruct (list_keys_in _ _ H) as [n [f [I P]]]. split; [eapply parse_key_limit, P|].
+    destruct (S _ _ I) as [k' [-> | ->]].
+    + apply parse_key_key in P. subst k'. destruct (in_lookup _ _ _ I) as [f' L].
+      unfold load. rewrite L. eauto.
+    + rewrite parse_key_spool in P. discriminate.
+  - intros [L [v H]]. unfold load in H. destruct (lookup (key_name k) d) as [f|] eqn:E; [|discriminate].
+    eapply in_list_keys; [apply lookup_in, E | apply parse_key_name_small, L].
+Qed.
+
+Lemma key_names_store : forall k n, key_names k n -> store_name n.
+Proof. intros k n H. exists k. exact H. Qed.
+
+Theorem list_subset_loadable_lemma : forall d l p k',
+  store_dir d -> calls_on store_name l -> stop_prefix p l ->
+  In k' (list_keys (run d p)) -> exists v, load k' (run d p) = Some v.
+Proof.
+  intros d l p k' S A H I.
+  assert (store_dir (run d p)) as S'.
+  { apply store_dir_run; [exact S|]. eapply stop_prefix_calls_on; eassumption. }
+  apply (listed_iff_loadable _ _ S') in I. apply I.
+Qed.
+
+(* membership in List is framed as well *)
+Theorem frame_listed : forall k l d k', store_dir d -> calls_on (key_names k) l -> k' <> k ->
+  (In k' (list_keys (run d l)) <-> In k' (list_keys d)).
+Proof.
+  intros k l d k' S A D.
+  assert (store_dir (run d l)) as S'.
+  { apply store_dir_run; [exact S|]. eapply calls_on_weaken; [apply key_names_store | exact A]. }
+  rewrite (listed_iff_loadable _ _ S'), (listed_iff_loadable _ _ S).
+  rewrite (frame_load k l A k' d D). reflexivity.
+Qed.
+
+(* ------------------------------------------------------------------ *)
+(* interleavings                                                       *)
+
+(* m is an interleaving of l1 and l2 *)
+Inductive merge : list syscall -> list syscall -> list syscall -> Prop :=
+| merge_nil : merge [] [] []
+| merge_l : forall c l1 l2 m, merge l1 l2 m -> merge (c :: l1) l2 (c :: m)
+| merge_r : forall c l1 l2 m, merge l1 l2 m -> merge l1 (c :: l2) (c :: m).
+
+Lemma merge_sym : forall l1 l2 m, merge l1 l2 m -> merge l2 l1 m.
+Proof. intros l1 l2 m H. induction H; constructor; assumption. Qed.
+
+Lemma merge_nil_l : forall l, merge [] l l.
+Proof. induction l; constructor; assumption. Qed.
+
+Lemma merge_app : forall l1 l2, merge l1 l2 (l1 ++ l2).
+Proof. induction l1; intros l2; cbn [app]; [apply merge_nil_l | constructor; auto]. Qed.
+
+Lemma merge_calls_on : forall (S : fname -> Prop) l1 l2 m,
+  merge l1 l2 m -> calls_on S l1 -> calls_on S l2 -> calls_on S m.
+Proof.
+  intros S l1 l2 m H. induction H; intros A B.
+  - constructor.
+  - inversion A as [|? ? Hc Hl]; subst. constructor; [exact Hc | apply IHmerge; assumption].
+  - inversion B as [|? ? Hc Hl]; subst. constructor; [exact Hc | apply IHmerge; assumption].
+Qed.
+
+(* a stop point of an interleaving is an interleaving of stop points *)
+Lemma merge_stop_prefix : forall l1 l2 m, merge l1 l2 m -> forall p, stop_prefix p m ->
+  exists p1 p2, stop_prefix p1 l1 /\ stop_prefix p2 l2 /\ merge p1 p2 p.
+Proof.
+  intros l1 l2 m H. induction H; intros p Hp.
+  - inversion Hp; subst. exists [], []. repeat split; constructor.
+  - inversion Hp as [ | c' p' l' Hp' | n' b' j' l']; subst.
+    + exists [], []. repeat split; constructor.
+    + destruct (IHmerge _ Hp') as [p1 [p2 [A [B C]]]].
+      exists (c :: p1), p2. repeat split; [constructor; exact A | exact B | constructor; exact C].
+    + exists [Write n' (firstn j' b')], []. repeat split; repeat constructor.
+  - inversion Hp as [ | c' p' l' Hp' | n' b' j' l']; subst.
+    + exists [], []. repeat split; constructor.
+    + destruct (IHmerge _ Hp') as [p1 [p2 [A [B C]]]].
+      exists p1, (c :: p2). repeat split; [exact A | constructor; exact B | constructor; exact C].
+    + exists [], [Write n' (firstn j' b')]. repeat split; repeat constructor.
+Qed.
+
+(* In any interleaving, the names of one side see that side's calls only. *)
+Lemma merge_projection : forall (A B : fname -> Prop) l1 l2 m,
+  (forall n, A n -> B n -> False) ->
+  merge l1 l2 m -> calls_on A l1 -> calls_on B l2 ->
+  forall d d', (forall n, A n -> lookup n d = lookup n d') ->
+  forall n, A n -> lookup n (run d m) = lookup n (run d' l1).
+Proof.
+  intros A B l1 l2 m D H. induction H; intros C1 C2 d d' E n Hn.
+  - apply E, Hn.
+  - inversion C1 as [|? ? Hc Hl]; subst. rewrite !run_cons. apply IHmerge; try assumption.
+    apply apply_agree; assumption.
+  - inversion C2 as [|? ? Hc Hl]; subst. rewrite run_cons. apply IHmerge; try assumption.
+    intros n0 Hn0. rewrite apply_frame; [apply E, Hn0|].
+    intros I. exact (D n0 Hn0 (Hc _ I)).
+Qed.
+
+(* extensional equality of directories *)
+Definition dir_equiv (d d' : dir) : Prop := forall n, lookup n d = lookup n d'.
+
+(* Calls on disjoint name sets commute in every interleaving: each interleaving has the
+   effect of running one list after the other, in either order. *)
+Lemma merge_commute_gen : forall (NA NB : list fname) l1 l2 m d,
+  (forall n, In n NA -> In n NB -> False) ->
+  merge l1 l2 m -> calls_on (fun n => In n NA) l1 -> calls_on (fun n => In n NB) l2 ->
+  dir_equiv (run d m) (run (run d l1) l2).
+Proof.
+  intros NA NB l1 l2 m d D H C1 C2 n.
+  destruct (in_dec name_eq_dec n NA) as [IA|IA].
+  - rewrite (merge_projection _ _ _ _ _ D H C1 C2 d d (fun _ _ => eq_refl) n IA).
+    symmetry. eapply run_frame; [exact C2|]. intros IB. exact (D n IA IB).
+  - destruct (in_dec name_eq_dec n NB) as [IB|IB].
+    + assert (forall x, In x NB -> In x NA -> False) as D' by (intros x P Q; exact (D x Q P)).
+      rewrite (merge_projection _ _ _ _ _ D' (merge_sym _ _ _ H) C2 C1 d d (fun _ _ => eq_refl) n IB).
+      rewrite <- run_app.
+      rewrite (merge_projection _ _ _ _ _ D' (merge_sym _ _ _ (merge_app l1 l2)) C2 C1 d d
+                 (fun _ _ => eq_refl) n IB).
+      reflexivity.
+    + rewrite <- run_app.
+      rewrite (run_frame (fun x => In x NA \/ In x NB) m); [|
+        eapply merge_calls_on; [exact H | eapply calls_on_weaken; [|exact C1]; cbn; tauto
+                                         | eapply calls_on_weaken; [|exact C2]; cbn; tauto] | tauto].
+      rewrite (run_frame (fun x => In x NA \/ In x NB) (l1 ++ l2)); [reflexivity| | tauto].
+      apply calls_on_app; [eapply calls_on_weaken; [|exact C1] | eapply calls_on_weaken; [|exact C2]];
+        cbn; tauto.
+Qed.
+
+Lemma key_names_list : forall k n, key_names k n <-> In n [key_name k; spool_name k].
+Proof. intros k n. unfold key_names. cbn [In]. split; intros H; intuition congruence. Qed.
+
+Theorem interleave_commute_lemma : forall k1 k2 l1 l2 m d,
+  k1 <> k2 -> calls_on (key_names k1) l1 -> calls_on (key_names k2) l2 -> merge l1 l2 m ->
+  dir_equiv (run d m) (run (run d l1) l2) /\ dir_equiv (run d m) (run (run d l2) l1).
+Proof.
+  intros k1 k2 l1 l2 m d D C1 C2 H.
+  assert (forall n, In n [key_name k1; spool_name k1] -> In n [key_name k2; spool_name k2] -> False) as Dj.
+  { intros n A B. apply key_names_list in A, B. exact (key_names_disjoint k1 k2 n D A B). }
+  assert (calls_on (fun n => In n [key_name k1; spool_name k1]) l1) as C1'.
+  { eapply calls_on_weaken; [|exact C1]. intros n. apply key_names_list. }
+  assert (calls_on (fun n => In n [key_name k2; spool_name k2]) l2) as C2'.
+  { eapply calls_on_weaken; [|exact C2]. intros n. apply key_names_list. }
+  split.
+  - eapply merge_commute_gen; eassumption.
+  - eapply merge_commute_gen; [| apply merge_sym, H | exact C2' | exact C1'].
+    intros n A B. exact (Dj n B A).
+Qed.
+
+(* ... and at every stop point of the interleaving each key sees a stop point of its own
+   operation, whatever the other one did. *)
+Theorem interleave_stop_projection : forall k1 k2 l1 l2 m p d,
+  k1 <> k2 -> calls_on (key_names k1) l1 -> calls_on (key_names k2) l2 -> merge l1 l2 m ->
+  stop_prefix p m ->
+  exists p1 p2, stop_prefix p1 l1 /\ stop_prefix p2 l2 /\
+    (forall n, key_names k1 n -> lookup n (run d p) = lookup n (run d p1)) /\
+    (forall n, key_names k2 n -> lookup n (run d p) = lookup n (run d p2)).
+Proof.
+  intros k1 k2 l1 l2 m p d D C1 C2 H Hp.
+  destruct (merge_stop_prefix _ _ _ H _ Hp) as [p1 [p2 [A [B M]]]].
+  exists p1, p2. split; [exact A|]. split; [exact B|].
+  pose proof (stop_prefix_calls_on _ _ _ A C1) as P1.
+  pose proof (stop_prefix_calls_on _ _ _ B C2) as P2.
+  split; intros n Hn.
+  - eapply (merge_projection (key_names k1) (key_names k2)); try eassumption.
+    + intros x. apply key_names_disjoint, D.
+    + reflexivity.
+  - eapply (merge_projection (key_names k2) (key_names k1)); try eassumption.
+    + intros x P Q. exact (key_names_disjoint k1 k2 x D Q P).
+    + apply merge_sym, M.
+    + reflexivity.
+Qed.
+
+(* ------------------------------------------------------------------ *)
+(* closed forms used by the case checker for very large values         *)
+
+Lemma write_atts_none : forall sp bufs,
+  write_atts sp bufs None = (map (fun b => (Write sp b, true)) bufs, true).
+Proof.
+  intros sp. induction bufs as [|b r IH]; cbn [write_atts map]; [reflexivity|]. rewrite IH. reflexivity.
+Qed.
+
+Lemma effects_all_ok : forall sp bufs,
+  effects (map (fun b => (Write sp b, true)) bufs) = map (Write sp) bufs.
+Proof. intros sp. induction bufs as [|b r IH]; cbn [map effects]; [|rewrite IH]; reflexivity. Qed.
+
+Lemma save_calls_nofault : forall k bufs leak,
+  save_calls k bufs NoFault leak
+  = (Creat (spool_name k) :: map (Write (spool_name k)) bufs
+       ++ [Fsync (spool_name k); Close (spool_name k)])
+    ++ [Rename (spool_name k) (key_name k)].
+Proof.
+  intros k bufs leak. unfold save_calls, save_atts. cbn [write_fault].
+  rewrite write_atts_none.
+  cbn [is_fsync_fault is_close_fault is_rename_fault negb andb fst app].
+  rewrite !effects_app, effects_all_ok. cbn [effects app].
+  rewrite <- app_assoc. reflexivity.
+Qed.
+
+Lemma writes_on_spool : forall sp bufs, calls_on (only sp) (map (Write sp) bufs).
+Proof.
+  intros sp. induction bufs; cbn [map]; constructor; [intros n [<-|[]]; reflexivity | assumption].
+Qed.
+
+(* killed at the entry of call number i+1 of a Save without faults *)
+Theorem save_cut_calls_closed : forall d k bufs leak i,
+  load k (run d (cut_calls i (save_calls k bufs NoFault leak)))
+  = if Nat.leb i (length bufs + 3) then load k d else Some (concat bufs).
+Proof.
+  intros d k bufs leak i. rewrite save_calls_nofault. unfold cut_calls.
+  set (pre := Creat (spool_name k) :: map (Write (spool_name k)) bufs
+                ++ [Fsync (spool_name k); Close (spool_name k)]).
+  assert (length pre = length bufs + 3)%nat as L.
+  { unfold pre. cbn [length]. rewrite app_length, map_length. cbn [length]. lia. }
+  assert (calls_on (only (spool_name k)) pre) as P.
+  { unfold pre. apply (calls_on_app _ [_]); [apply calls_on_only1; reflexivity|].
+    apply calls_on_app; [apply writes_on_spool|].
+    apply (calls_on_app _ [_] [_]); apply calls_on_only1; reflexivity. }
+  destruct (Nat.leb_spec i (length bufs + 3)) as [Hi|Hi].
+  - rewrite firstn_app. replace (i - length pre)%nat with 0%nat by lia.
+    cbn [firstn]. rewrite app_nil_r. unfold load.
+    rewrite (run_frame (only (spool_name k)) (firstn i pre)); [reflexivity| |apply only_spool_not_key].
+    eapply stop_prefix_calls_on; [apply stop_prefix_firstn | exact P].
+  - rewrite firstn_all2 by (rewrite app_length; cbn [length]; lia).
+    unfold load. rewrite run_app, run_single. cbn [apply]. unfold pre.
+    rewrite (run_spool_complete (spool_name k) bufs [Close (spool_name k)] d) by (right; reflexivity).
+    rewrite lookup_bind, name_eqb_refl. reflexivity.
+Qed.
+
+Lemma cut_bytes_writes_on : forall sp bufs rest lim,
+  (lim < length (concat bufs))%nat ->
+  calls_on (only sp) (cut_bytes lim (map (Write sp) bufs ++ rest)).
+Proof.
+  intros sp. induction bufs as [|b r IH]; intros rest lim H; cbn [concat length] in H; [lia|].
+  cbn [map app cut_bytes]. rewrite app_length in H.
+  destruct (Nat.leb_spec (length b) lim) as [L|L].
+  - constructor; [intros n [<-|[]]; reflexivity|]. apply IH. lia.
+  - apply calls_on_only1. reflexivity.
+Qed.
+
+(* stopped by a file size limit below the size of the value: nothing is visible *)
+Theorem save_cut_bytes_closed : forall d k bufs leak lim,
+  (lim < length (concat bufs))%nat ->
+  load k (run d (cut_bytes lim (save_calls k bufs NoFault leak))) = load k d.
+Proof.
+  intros d k bufs leak lim H. rewrite save_calls_nofault. cbn [app cut_bytes].
+  unfold load. rewrite (run_frame (only (spool_name k))); [reflexivity| |apply only_spool_not_key].
+  constructor; [intros n [<-|[]]; reflexivity|].
+  rewrite <- app_assoc. apply cut_bytes_writes_on, H.
 Qed.
